@@ -168,7 +168,7 @@ PROPS = {
                  "non-trivial = steps with a non-empty previous root / requests with hits"),
         "trusted_base": COMMON_TB + ["zapx MergeUsing / segment persistence", "float evaluation is deterministic for equal inputs in equal order"],
         "assumptions": ["sorts are made total by a trailing _id key (tie order is layout dependent by design)", LEVEL_NOTE],
-        "floors": {"introducer/segment": 20, "introducer/persist": 5, "layout/disk-forcemerge": 20, "layout/disk-reopened": 20, "scores/disk-forcemerge": 10},
+        "floors": {"introducer/segment": 8, "introducer/persist": 5, "layout/disk-forcemerge": 20, "layout/disk-reopened": 20, "scores/disk-forcemerge": 10},
         "thorough_shards": 8,
         "classify": lambda m: m.get("cat", "").split("/")[0] if m.get("cat", "").startswith("scored-") else m.get("cat", ""),
     },
@@ -262,7 +262,7 @@ PROPS = {
                  "the same through bleve.New / Close / Open. non-trivial = every comparison; distinct by rendered content"),
         "trusted_base": COMMON_TB + ["encoding/json", "the go/ast extractor of struct tags, case arms and presets (harness/cmd/extract/codec.go)"],
         "assumptions": ["mappings rejected by Validate are outside the property", LEVEL_NOTE],
-        "floors": {"json-fixpoint": 20, "mapdoc": 200},
+        "floors": {"json-fixpoint": 8, "mapdoc": 200},
         "thorough_shards": 8,
     },
     "C13": {
@@ -300,7 +300,7 @@ PROPS = {
                                      "atomicity are assumptions); bbolt for reading root.bolt in the harness"],
         "assumptions": ["partial: OS durability guarantees (fsync, atomic bbolt commit) are assumed, garbling of unreferenced files stands in "
                         "for power loss; the index is created before the first kill", LEVEL_NOTE],
-        "floors": {"safe/event-commit": 100, "safe/event-zaprm": 10, "safe/event-boltrm": 20, "safe/recovered": 8, "unsafe/recovered": 3},
+        "floors": {"safe/event-commit": 30, "safe/event-zaprm": 10, "safe/event-boltrm": 20, "safe/recovered": 4, "unsafe/recovered": 3},
         "thorough_shards": 8,
     },
     "C14": {
@@ -316,7 +316,7 @@ PROPS = {
                  "C04-style client throughout and compared with the full history at the end. non-trivial = every observation"),
         "trusted_base": COMMON_TB + ["bbolt for reading the copy's root.bolt; os.ReadDir"],
         "assumptions": ["partial: atomicity of capturing the root under the lock is exercised by the concurrent runs, not proved", LEVEL_NOTE],
-        "floors": {"safe/copy-content": 10, "unsafe/copy-content": 5, "safe/source-obs": 100},
+        "floors": {"safe/copy-content": 10, "unsafe/copy-content": 5, "safe/source-obs": 30},
         "thorough_shards": 6,
     },
     "C11": {
@@ -336,7 +336,7 @@ PROPS = {
         "trusted_base": COMMON_TB + ["Go race detector and scheduler; runtime.NumGoroutine / Stack"],
         "assumptions": ["partial: data races, panics, deadlocks and leaks are runtime facts that the stress exercises and the race detector "
                         "observes on the schedules that occur; the theorems cover the lifecycle protocol", LEVEL_NOTE],
-        "floors": {"scorch-disk/close": 2, "scorch-disk-paced/close": 2, "scorch-mem/call-search": 20, "upsidedown-boltdb/call-index": 20, "scorch-mem/cancel-ctx": 10},
+        "floors": {"scorch-disk/close": 2, "scorch-disk-paced/close": 2, "scorch-mem/call-search": 3, "upsidedown-boltdb/call-index": 3, "scorch-mem/cancel-ctx": 10},
         "thorough_shards": 4, "parallel": 2, "timeout_quick": 1500,
     },
     "C12": {
@@ -372,8 +372,8 @@ PROPS = {
                  "non-trivial = every observation"),
         "trusted_base": COMMON_TB + ["the Go scheduler produces the interleavings; atomic counters order 'acknowledged' before 'read began'"],
         "assumptions": ["partial: atomicity of the root swap in the Go runtime is exercised by concurrent runs, not proved", LEVEL_NOTE],
-        "floors": {"scorch-disk/obs": 50, "scorch-mem/obs": 50, "upsidedown-gtreap/obs": 50, "upsidedown-boltdb/obs": 3,
-                   "scorch-disk/handle": 5, "scorch-disk/search-obs": 5, "scripted/read": 40, "scripted/held": 20},
+        "floors": {"scorch-disk/obs": 15, "scorch-mem/obs": 15, "upsidedown-gtreap/obs": 15, "upsidedown-boltdb/obs": 3,
+                   "scorch-disk/handle": 5, "scorch-disk/search-obs": 5, "scripted/read": 15, "scripted/held": 8},
         "thorough_shards": 4,
     },
     "C01": {
